@@ -24,7 +24,7 @@ From AL Require Import Base Api Mutex MutexApi Semaphore SemApi RwLock RwApi Onc
 From AL.Tie Require Tie_Mutex Tie_Semaphore Tie_Raw Tie_RwLock Tie_RwFutures Tie_OnceCell Tie_Barrier.
 
 Theorem C17_semaphore_settle : forall (n : N) (ops0 ops : list sop), SemSettle.settle_run (srun n ops0) ops ->
-  N.of_nat (length ops) <= 3 * sP (srun n ops0) + 2 * N.of_nat (length (se0 (s_sh (srun n ops0)))).
+  N.of_nat (length ops) <= 4 * sP (srun n ops0) + 2 * N.of_nat (length (se0 (s_sh (srun n ops0)))).
 Proof. exact sem_settle_bound. Qed.
 
 Theorem C17_mutex_settle : forall ops0 ops : list mop, N.of_nat (length ops0) + N.of_nat (length ops) < MutexLive.LIVE_BOUND ->
